@@ -228,6 +228,30 @@ def stepLine (line : String) : String :=
       let out := RK.splitStep ops (polyRhs n terms) mm t y h (T.drift.map (tabRat T.K)) (T.kick.map (tabRat T.K))
       s!"{showRats out.1} {showRat out.2}"
     | _, _, _, _, _, _, _ => bad
+  -- lookup idx <n> <i> | near <q> <ts> | slice <start|-> <stop|-> <ts> | iter <n>
+  | ["lookup", "idx", n, i] =>
+    match n.toNat?, parseInt? i with
+    | some n, some i => match Lookup.intIndex n i with
+      | some k => toString k
+      | none => "index-error"
+    | _, _ => bad
+  | ["lookup", "iter", n] =>
+    match n.toNat? with
+    | some n => showList toString (Lookup.iterate n (n + 5))
+    | none => bad
+  | ["lookup", "near", q, ts] =>
+    match parseFloatBits? q, parseList? parseFloatBits? ts with
+    | some q, some ts => toString (Lookup.nearest ts q)
+    | _, _ => bad
+  | ["lookup", "slice", a, b, ts] =>
+    match parseList? parseFloatBits? ts with
+    | some ts =>
+      let pa := if a == "-" then some none else (parseFloatBits? a).map some
+      let pb := if b == "-" then some none else (parseFloatBits? b).map some
+      match pa, pb with
+      | some a, some b => let r := Lookup.sliceRange ts.toArray a b; s!"{r.1} {r.2}"
+      | _, _ => bad
+    | none => bad
   -- ctrl <adaptiveOrImplicit 0/1> <implicit 0/1> <h> <ts:redo:ok;...> : accept/retry logic, bit exact
   | ["ctrl", ai, im, h, atts] =>
     let parseA (s : String) : Option (Controller.Attempt Float) :=
